@@ -337,15 +337,16 @@ type cinput struct {
 	qual string      // R
 	spec []int       // R: specializers, C: classes
 	src  string
+	lbl  string     // the op as written in the case (find-method and remove-method of one R op are two operations)
 	st0  *ref.State // I: the initial table
 	// exempt (relaxed check only): the call overlaps a change of the table
 	exempt bool
 }
 
 type coutput struct {
-	obs     observed // C
-	removed bool     // R
-	err     *sl.Err
+	obs   observed // C
+	found bool     // F
+	err   *sl.Err
 }
 
 type stateBox struct {
@@ -371,15 +372,16 @@ var concModel = porcupine.Model{
 			n := sb.st.Clone()
 			n.Define(in.m)
 			return true, box(n)
-		case 'R':
+		case 'F': // find-method: reads the table
 			if out.err != nil {
 				return false, sb
 			}
-			had := sb.st.Has(in.qual, in.spec)
-			if had != out.removed {
+			return sb.st.Has(in.qual, in.spec) == out.found, sb
+		case 'R': // remove-method of a method object found earlier: deletes the slot if it is still there
+			if out.err != nil {
 				return false, sb
 			}
-			if !had {
+			if !sb.st.Has(in.qual, in.spec) {
 				return true, sb
 			}
 			n := sb.st.Clone()
@@ -422,6 +424,9 @@ func execConc(x *fw.Ctx, c Case) {
 		code  slip.Code
 		first slip.Object
 		buf   *[]string
+		// R ops: find-method first (in/code), then remove-method (in2/code2) if it found the method
+		in2   *cinput
+		code2 slip.Code
 	}
 	plan := make([][]prepared, len(c.Thr))
 	scopes := make([]*slip.Scope, len(c.Thr))
@@ -431,7 +436,7 @@ func execConc(x *fw.Ctx, c Case) {
 		scopes[t] = world.NewScope()
 		for k, s := range ops {
 			o := parseOp(s)
-			p := prepared{in: &cinput{kind: o.kind, qual: o.qual, spec: o.spec}}
+			p := prepared{in: &cinput{kind: o.kind, qual: o.qual, spec: o.spec, lbl: s}}
 			switch o.kind {
 			case 'D':
 				g.ver++
@@ -439,7 +444,17 @@ func execConc(x *fw.Ctx, c Case) {
 				p.in.src = defSrc(g.name, g.fam, p.in.m)
 				hasAround = hasAround || o.qual == ref.Around
 			case 'R':
-				p.in.src = remSrc(g.name, g.fam, o.qual, o.spec)
+				// two slip operations, recorded separately: a remove by another
+				// goroutine may legitimately fall between them
+				scopes[t].Let(slip.Symbol("c10m"), nil)
+				p.in.kind = 'F'
+				p.in.lbl = s + "/find-method"
+				p.in.src = findSrc(g.name, g.fam, o.qual, o.spec)
+				p.in2 = &cinput{kind: 'R', qual: o.qual, spec: o.spec, lbl: s + "/remove-method", src: "(remove-method '" + g.name + " c10m)"}
+				if e := sl.Catch(func() { p.code2 = slip.ReadString(p.in2.src, scopes[t]) }); e != nil {
+					x.Fail("harness-read", "%s: %s", p.in2.src, e)
+					return
+				}
 			case 'C':
 				var b strings.Builder
 				b.WriteString("(" + g.name)
@@ -485,26 +500,33 @@ func execConc(x *fw.Ctx, c Case) {
 				case 1:
 					time.Sleep(time.Duration(ps.rng.IntN(100)) * time.Microsecond)
 				}
-				out := &coutput{}
-				var call, ret int64
-				if !c.NoLin {
-					call = clock.Add(1)
+				do := func(in *cinput, code slip.Code) (*coutput, slip.Object) {
+					out := &coutput{}
+					var call, ret int64
+					if !c.NoLin {
+						call = clock.Add(1)
+					}
+					var res slip.Object
+					out.err = sl.Catch(func() { res = code.Eval(scopes[t], nil) })
+					if !c.NoLin {
+						ret = clock.Add(1)
+					}
+					results[t] = append(results[t], porcupine.Operation{ClientId: t, Input: in, Call: call, Output: out, Return: ret})
+					return out, res
 				}
-				var res slip.Object
-				out.err = sl.Catch(func() { res = p.code.Eval(scopes[t], nil) })
-				if !c.NoLin {
-					ret = clock.Add(1)
-				}
+				out, res := do(p.in, p.code)
 				switch p.in.kind {
 				case 'C':
 					out.obs = observed{Trace: *p.buf, Err: out.err}
 					if out.err == nil {
 						out.obs.Value = sl.Show(res)
 					}
-				case 'R':
-					out.removed = out.err == nil && sl.Show(res) == "1"
+				case 'F':
+					out.found = out.err == nil && res != nil
+					if out.found {
+						do(p.in2, p.code2)
+					}
 				}
-				results[t] = append(results[t], porcupine.Operation{ClientId: t, Input: p.in, Call: call, Output: out, Return: ret})
 			}
 		}(t)
 	}
@@ -526,7 +548,7 @@ func execConc(x *fw.Ctx, c Case) {
 		call := clock.Add(1)
 		got := g.call(g.scope, t, uniq)
 		ret := clock.Add(1)
-		sweep = append(sweep, porcupine.Operation{ClientId: len(c.Thr), Input: &cinput{kind: 'C', spec: t, src: callOp(t)},
+		sweep = append(sweep, porcupine.Operation{ClientId: len(c.Thr), Input: &cinput{kind: 'C', spec: t, src: callOp(t), lbl: callOp(t)},
 			Call: call, Output: &coutput{obs: got, err: got.Err}, Return: ret})
 		sweepOps = append(sweepOps, callOp(t))
 	}
@@ -536,10 +558,10 @@ func execConc(x *fw.Ctx, c Case) {
 	hist := []porcupine.Operation{{ClientId: len(c.Thr), Input: &cinput{kind: 'I', st0: st.Clone()}, Call: -2, Output: &coutput{}, Return: -1}}
 	var lines []string
 	for t := range results {
-		for k, op := range results[t] {
+		for _, op := range results[t] {
 			hist = append(hist, op)
 			in, out := op.Input.(*cinput), op.Output.(*coutput)
-			ln := fmt.Sprintf("g%d [%d,%d] %s", t, op.Call, op.Return, c.Thr[t][k])
+			ln := fmt.Sprintf("g%d [%d,%d] %s", t, op.Call, op.Return, in.lbl)
 			switch in.kind {
 			case 'C':
 				ln += fmt.Sprintf(" => %v %s", out.obs.Trace, out.obs.Value)
@@ -549,8 +571,10 @@ func execConc(x *fw.Ctx, c Case) {
 				x.Cover("calls")
 				x.Cover("conc:calls")
 				x.CoverN("markers", len(out.obs.Trace))
+			case 'F':
+				ln += fmt.Sprintf(" => found=%v", out.found)
+				x.Cover("conc:find-method")
 			case 'R':
-				ln += fmt.Sprintf(" => removed=%v", out.removed)
 				x.Cover("conc:remove-method")
 			default:
 				x.Cover("conc:defmethod")
